@@ -311,6 +311,10 @@ def layers(tier):
         L.append(Layer(f"L2-gt-{R}x{C}", "single", R, C, gts=all_gt(1), weights=[1, 2] if R * C <= 6 else [1]))
         gls = gl_cols(1, GL_SET if (T or C <= 2) else GL_SET[:3])
         L.append(Layer(f"L2-gl-{R}x{C}", "single", R, C, gls=gls, weights=[1, 2] if R * C <= 4 else [2]))
+    # distrusted genotypes with explicit position lists (uncovered leading / inner / trailing columns)
+    for R, C in [(1, 2), (1, 3), (2, 3)] + ([(2, 4), (3, 3)] if T else []):
+        L.append(Layer(f"L2-glpos-{R}x{C}", "single", R, C, gls=gl_cols(1, GL_SET if C <= 2 else GL_SET[1:4]), weights=[2], explicit=(True,)))
+    L.append(Layer("L3-trio-glpos-1x2", "trio", 1, 2, gls=gl_cols(3, [(0, 3, 7), (3, 0, 3), (7, 3, 0)])[:: (1 if T else 3)], rcs=[1, 4], weights=[3], explicit=(True,)))
     # two unrelated individuals in one table
     for R, C in [(2, 2), (3, 2)] + ([(3, 3), (4, 2)] if T else []):
         L.append(Layer(f"L2-pair-{R}x{C}", "pair", R, C, gts=[(1, 1), (1, 0), (2, 1)] if C <= 2 else None))
